@@ -91,4 +91,10 @@ func init() {
 		explanation: "Decides structural clauses of the Merkle constructions: domain-separation constants and their use at every tree hash site (prefix byte, buffer size, both children copied); verifiers guard evaluation with i<=j and i!=0, compare the evaluated root(s) with the claimed one(s), every verifier parameter influences the verdict beyond a zero check, the entry-tree verifier ties the number of terms to (Leaf, Width); ResetSize syncs and invalidates both caches before shrinking and never grows; Append rewinds both logs to their committed sizes before writing and advances sizes only when the batch sync did not fail. It does NOT decide equality of roots/proofs with the reference construction (digest-log arithmetic).",
 		assumptions: []string{"sha256"},
 	})
+	register("C16", &propDef{
+		patterns: []string{"./embedded/store", "./embedded/appendable/...", "./embedded/tbtree", "./embedded/sql", "./pkg/api/schema", "./pkg/pgsql/server/...", "./pkg/stream"},
+		run:      c16,
+		explanation: "Decides, for a frozen list of decoders of untrusted or possibly corrupted bytes, that every slice expression, index, fixed-size big-endian read and length-driven allocation is within bounds on every path: each obligation (a linear inequality over SSA values and slice lengths) is discharged from the branch conditions that dominate the access (plus stated callee contracts, themselves checked on every implementation, and an induction step over loop cursors); explicit panics in decoders are violations. It does NOT decide termination/time bounds nor the generated SQL parser's recursion depth.",
+		assumptions: []string{"integer overflow of cursor arithmetic is out of scope (lengths are bounded by buffer sizes)"},
+	})
 }
